@@ -4,6 +4,8 @@ R02a  best-effort acceptance of DATA / DATA_FRAG only for sn >= expected
 R02b  every accepted DATA raises the mark (received_change_set(sn))
 R01c  the mark is monotone (shared with C01)
 R02d  reassembled fragments go through on_data_submessage, never straight into the cache
+R05f  (shared with C05) a reassembled sample is built only from fragments of that sample: every predicate over the fragment
+      buffer in reconstruct_data_from_frag compares writer_sn() with the requested sequence number (no splicing = no corruption)
 Byte identity of payloads is not decided.
 """
 from rules import rtps_core as R
@@ -24,5 +26,8 @@ def run(ctx, rep):
     rep.floor("R01c", nm, 2, "writes to highest_received_change_sn")
     n3 = R.frag_reassembly_goes_through_data(b2, adder(rep, b2))
     rep.floor("R02d", n3, 1, "on_data_submessage call in on_data_frag_submessage")
+    from rules.c05 import reassembly_same_sample
+    n4 = reassembly_same_sample(fx, rep)
+    rep.floor("R05f", n4, 4, "fragment-buffer predicates in reconstruct_data_from_frag")
     # keep only C02's rules in this report (acceptance() also emits the reliable-arm obligations)
-    rep.obls = [o for o in rep.obls if o.rule in ("R02a", "R02b", "R02d", "R01c", "anchor")]
+    rep.obls = [o for o in rep.obls if o.rule in ("R02a", "R02b", "R02d", "R01c", "R05f", "anchor")]
